@@ -84,7 +84,9 @@ def check_type(value: Any, attr_type: Type) -> bool:
                         if not check_type(item, attr_type.__args__[i]):
                             return False
             elif attr_type.__origin__ == type:
-                if not issubclass(value, attr_type.__args__[0]):
+                if attr_type.__args__[0] is not Any and not issubclass(
+                    value, attr_type.__args__[0]
+                ):
                     return False
 
             return True
